@@ -80,6 +80,10 @@ def mk_riscv(e, mode="single_stage_pipeline", detect=True, dcache=None, icache=N
     st = sim.state
     c = RiscvCtx()
     c.sim = sim
+    # other simulation objects that stay alive next to the one under test, built after it with the
+    # opposite options: instances must not share mutable state (stages, tables, option objects)
+    other_mode = "five_stage_pipeline" if mode == "single_stage_pipeline" else "single_stage_pipeline"
+    c.bystanders = [RiscvSimulation(mode=mode, detect_data_hazards=not detect), RiscvSimulation(mode=other_mode, detect_data_hazards=not detect)]
     regs = Store(e, "R0" + tag, 5, 32, export=range(32), zero_key=0)
     c.regs0 = regs.fork()
     if e.mode == "sym":
